@@ -73,6 +73,9 @@ fn check(scn: &Scenario, rep: &mut Report) {
     };
     rep.add("handle_invocations", out.log.len() as u64);
     rep.add("server_polls", out.total_polls as u64);
+    if scn.coop > 0 {
+        rep.count("cases_under_a_cooperative_budget");
+    }
     if scn.wake {
         rep.count("wake_driven_cases");
         rep.add("wake_driven_waker_firings", out.wakes);
@@ -155,6 +158,11 @@ pub fn run(cfg: &Cfg) -> Report {
         let ch = chains(&scn, &eof);
         let order = random_interleaving(&ch, &mut rng);
         scn.wake = rng.chance(1, 3);
+        // every fifth scenario under a cooperative budget: after a few transport operations per poll every transport
+        // answers `Pending` until the server task has yielded (what tokio's sockets do after 128 operations)
+        if rng.chance(1, 5) {
+            scn.coop = rng.range(1, 9) as u32;
+        }
         let style = rng.below(3);
         scn.steps = order
             .into_iter()
